@@ -164,6 +164,8 @@ pub struct St {
     /// flush() of the wrapped sink fails with an error of its own (nobody but a caller's flush may ever see it: the
     /// queuing sink's thread has no business flushing, and a flush failure is not a failure of a queued metric)
     pub flush_fails: bool,
+    /// number of EXIT events in `log` (kept next to it: the "everything delivered?" predicates are evaluated at every poll)
+    pub n_exit: usize,
     pub log: Vec<Ev>,
     pub permits: usize,
     pub open: bool,
@@ -179,10 +181,13 @@ pub struct Shared {
 
 impl Shared {
     pub fn new(gated: bool) -> Arc<Shared> {
-        Arc::new(Shared { st: Mutex::new(St { flush_like_buffered_sink: false, flush_fails: false, log: Vec::new(), permits: 0, open: !gated, in_call: 0, sleep_us: (0, 0) }), cv: Condvar::new() })
+        Arc::new(Shared { st: Mutex::new(St { flush_like_buffered_sink: false, flush_fails: false, n_exit: 0, log: Vec::new(), permits: 0, open: !gated, in_call: 0, sleep_us: (0, 0) }), cv: Condvar::new() })
     }
     pub fn push(&self, e: Ev) {
         let mut g = self.st.lock().unwrap_or_else(|e| e.into_inner());
+        if matches!(e, Ev::Exit { .. }) {
+            g.n_exit += 1;
+        }
         g.log.push(e);
         self.cv.notify_all();
     }
@@ -249,6 +254,7 @@ impl MetricSink for GatedSink {
         {
             let mut g = self.sh.st.lock().unwrap_or_else(|e| e.into_inner());
             g.log.push(Ev::Exit { metric: metric.to_string(), out: out.clone(), tid });
+            g.n_exit += 1;
             g.in_call -= 1;
             self.sh.cv.notify_all();
         }
